@@ -54,13 +54,13 @@ def run_tlc(module, cfg, env=None, workers=1, timeout=600, extra=None, metadir=N
     os.makedirs(WORK, exist_ok=True)
     md = metadir or tempfile.mkdtemp(prefix="tlc_", dir=WORK)
     e = dict(os.environ)
-    e["JAVA_TOOL_OPTIONS"] = "-Xss1g -Xmx%s" % heap
+    e["JAVA_TOOL_OPTIONS"] = "-Xss1g -Xmx%s -Dfile.encoding=UTF-8 -Dstdout.encoding=UTF-8 -Dsun.stdout.encoding=UTF-8" % heap
     if env: e.update(env)
     cmd = ["timeout", str(timeout), "tlc", "-workers", str(workers), "-metadir", md, "-cleanup",
            "-noGenerateSpecTE", "-config", cfg, module]
     if extra: cmd[2:2] = []; cmd += extra
     t0 = time.time()
-    p = subprocess.run(cmd, cwd=cwd, env=e, stdout=subprocess.PIPE, stderr=subprocess.STDOUT, text=True)
+    p = subprocess.run(cmd, cwd=cwd, env=e, stdout=subprocess.PIPE, stderr=subprocess.STDOUT, text=True, encoding="utf-8", errors="replace")
     shutil.rmtree(md, ignore_errors=True)
     return p.returncode, p.stdout, time.time() - t0
 
